@@ -213,11 +213,18 @@ class _FragGen:
     weird_prefixes = False
     subclasses = False
     bitwise = False
+    numbered_prefixes = False
+    one_prefix = False
 
     def wrap(self, t):
         r = self.r
         px = r.choice([["none"], ["none"], ["s", "u"], ["s", "u"], ["s", "v"], ["s", "u_2"],
                        ["s", "0"], ["s", "tmp"]])
+        if self.numbered_prefixes and r.random() < 0.5:
+            # names that look like the mapper's own numbering, with tails of different length
+            px = ["s", r.choice(["u", "u", "u_9", "u_10", "u_2"])]
+        if self.one_prefix:
+            px = ["s", "t"]
         if self.weird_prefixes and r.random() < 0.5:
             # prefixes that are not identifiers: such a lineage is held to the name-table
             # invariants only, its program is not compiled
@@ -238,6 +245,8 @@ class _FragGen:
         if k == "cplx":
             return self.cplxf_expr(d) if self.cfloat else self.cplx_expr(d)
         ops = ["sum", "prod", "sub", "pow", "pow", "if", "neg", "ind"]
+        if k == "float":
+            ops.append("cpow")        # (pow() is a double: no good under %, // or & of int programs)
         if k == "int":
             ops += ["fdiv", "rem", "fdiv", "rem", "min", "max", "cmp"]
             if self.bitwise:
@@ -250,6 +259,11 @@ class _FragGen:
         e = self.expr
         if o == "ind":
             return self.indicator(d)
+        if o == "cpow":
+            # a constant base under an exponent only known at run time (0**0 is 1, in C too)
+            v = self.var()
+            expo = r.choice([v, v, ["n", "Sum", [["t", [v, ["n", "Product", [["t", [["i", -1], v]]]]]]]]])
+            return ["n", "Power", [["f", r.choice(["0.0", "0.0", "1.0", "2.0"])], expo]]
         if o in ("band", "bor", "bxor"):
             cls = {"band": "BitwiseAnd", "bor": "BitwiseOr", "bxor": "BitwiseXor"}[o]
             return ["n", cls, [["t", [e(d + 1) for _ in range(r.randint(2, 3))]]]]
@@ -455,6 +469,8 @@ def generate(seed, tier):
     g.subclasses = r.random() < 0.3
     g.bitwise = r.random() < 0.4     # (integer programs) & | ^ ~ << >> as well
     g.cfloat = kind == "cplx" and r.random() < 0.3    # complex_constant_base_type="float"
+    g.numbered_prefixes = r.random() < 0.08
+    many_same_prefix = kind != "cplx" and r.random() < 0.04
     ops = []
     npool = r.randint(2, 6)
     for k in range(npool):
@@ -540,6 +556,15 @@ def generate(seed, tier):
             bad = ["n", "Sum", [["t", [inner, ["n", "Unsupp", [g.var()]]]]]]
             t = ["n", "Product", [["t", [g.wrap(bad), t]]]] if r.random() < 0.7 else bad
         ops.append(["emit", m, t, fault])
+    if many_same_prefix:
+        # more than ten distinct wrapped subexpressions under one prefix on one lineage
+        g.one_prefix = True
+        v0 = g.var()
+        for j in range(r.randint(11, 14)):
+            t = g.wrap(["n", "Sum", [["t", [v0, ["i", j + 1]]]]] if kind != "float" else
+                       ["n", "Sum", [["t", [v0, ["f", repr(j + 0.5)]]]]])
+            ops.append(["emit", r.choice(mappers), ["n", "Product", [["t", [t, g.var()]]]], None])
+        g.one_prefix = False
     cfgd = {"kind": kind, "env": env}
     if g.cfloat:
         cfgd["cfloat"] = True
@@ -693,16 +718,17 @@ def _make_ref_evaluator():
             if isinstance(v, int) and abs(v) >= 2**31:
                 # also: arithmetic on integer *literals* is done in C's 32-bit int
                 self.bad.append("int-range")
-            elif isinstance(v, float) and v == v and not (abs(v) < 1e12):
+            elif isinstance(v, float) and v == v and not (abs(v) < self.maxabs):
                 self.bad.append("float-range")
             elif isinstance(v, complex):
                 if not self.allow_complex:
                     self.bad.append("complex")
-                elif not (abs(v) < 1e12):
+                elif not (abs(v) < self.maxabs):
                     self.bad.append("float-range")
             return v
 
         allow_complex = False
+        maxabs = 1e12
 
         rec = __call__
 
@@ -826,6 +852,9 @@ def execute(scenario, open_sigs):
 
         class RefC(Ref):
             allow_complex = True
+            # single precision programs: no intermediate value large enough for its rounding
+            # error (6e-8 relative) to matter to a sine or an exponential
+            maxabs = 1e4 if cfloat else 1e12
         Ref = RefC
 
     events, known, probes, faults, states = [], [], {}, {}, set()
